@@ -334,7 +334,94 @@ def empty(case):
   return {'evals': 4, 'nontrivial': True, 'outcome': fam}
 
 
-SUBS = {'batch_level': batch_level, 'partition_level': partition_level, 'monoid': monoid, 'empty': empty}
+def model_replace(case):
+  """History on the jit cache: model A, then A.replace(eval_metrics=<same names, other configuration>), then A again, on
+  batches of identical shapes - every evaluation must follow ITS model's metric objects."""
+  import fedjax
+  fam = case['family']
+  specs, mets, model, pool, poison, singles, zeros = family(fam)
+  alt = {}
+  for k, sp in specs.items():
+    sp2 = dict(sp)
+    if sp2['name'] == 'PerDomainMetric':
+      sp2 = dict(sp2, num_domains=sp2['num_domains'] + 1)
+    elif 'k' in sp2:
+      sp2['k'] = sp2['k'] - 1
+    elif 'masked_target_values' in sp2 or sp2['name'].startswith('Sequence'):
+      sp2['masked_target_values'] = sorted(set(sp2.get('masked_target_values', [0])) | {2}) if 2 not in sp2.get(
+          'masked_target_values', [0]) else [0]
+    elif sp2['name'] == 'Accuracy':
+      sp2 = {'name': 'TopKAccuracy', 'k': 2}
+    elif sp2['name'] == 'CrossEntropyLoss':
+      sp2 = {'name': 'Accuracy'}
+    elif sp2['name'] == 'ConfusionMatrix':
+      sp2 = {'name': 'Accuracy'}
+    alt[k] = sp2
+  mets_b = {k: mr.build(sp) for k, sp in alt.items()}
+  model_b = model.replace(eval_metrics=mets_b)
+  import jax.numpy as jnp
+  singles_b = {k: [_f64(mr.stat_arrays(m.evaluate_example(_jex(e), jnp.asarray(np.asarray(e['pred'], np.float32))))) for e in pool]
+               for k, m in mets_b.items()}
+  zeros_b = {k: _f64(mr.stat_arrays(m.zero())) for k, m in mets_b.items()}
+  evals = 0
+  for seq in ([0, 1, 2], [3, 4], [1, 1, 4, 0]):
+    batches = [make_batch(pool, poison, seq[:2], 1, 'poison'), make_batch(pool, poison, seq[2:], 3 - len(seq[2:]), 'poison')]
+    for which, mdl, sg, zr, ms in (('A', model, singles, zeros, mets), ('B', model_b, singles_b, zeros_b, mets_b),
+                                   ('A again', model, singles, zeros, mets)):
+      res = fedjax.evaluate_model(mdl, {}, batches)
+      for k in ms:
+        _cmp_result(k, res[k], fold(sg[k], zr[k], seq), 'evaluate_model(model %s)' % which, dict(case, seq=seq, model=which))
+      evals += 1
+  return {'evals': evals, 'nontrivial': True, 'outcome': fam}
+
+
+def pmap_evaluator(case):
+  """ModelEvaluator built on the pmap backend; every client's batches have the same padded shape, real rows are spread so
+  that the order of clients by number of real examples differs from their order by number of batches."""
+  import fedjax
+  import jax
+  from fedjax.core import for_each_client as fec
+  fam, ndev = case['family'], case['devices']
+  specs, mets, model, pool, poison, singles, zeros = family(fam)
+  key = ('pmap_ev', fam, ndev)
+  if key not in _CACHE:
+    with fec.for_each_client_backend(fec.ForEachClientPmapBackend(jax.local_devices()[:ndev])):
+      _CACHE[key] = fedjax.ModelEvaluator(model)
+  ev = _CACHE[key]
+  S = 3
+  layouts = {
+      'dense2': [[0, 1, 2], [3, 4, 0]],                 # 6 real rows in 2 full batches
+      'sparse3': [[0], [1, 2], [3]],                    # 4 real rows spread over 3 batches
+      'sparse4': [[4], [], [0], [1]],                   # 3 real rows over 4 batches, one batch fully masked
+      'one': [[2, 2]],
+      'empty': [],
+  }
+  orders = [case['order']] if 'order' in case else [['dense2', 'sparse3', 'sparse4', 'one', 'empty'],
+                                                    ['sparse4', 'empty', 'dense2', 'one', 'sparse3'],
+                                                    ['one', 'dense2', 'sparse3']]
+  evals = 0
+  for order in orders:
+    nc = dict(case, order=order)
+    clients = []
+    for nm in order:
+      bs = []
+      for j, idxs in enumerate(layouts[nm]):
+        b = make_batch(pool, poison, idxs, S - len(idxs), 'poison', True, 'front' if j % 2 else 'tail')
+        bs.append(b)
+      clients.append((nm.encode(), bs))
+    import jax.numpy as jnp
+    got = dict(ev.evaluate_global_params({'unused': jnp.zeros((1,))}, clients))
+    require(set(got) == {c for c, _ in clients}, 'ModelEvaluator(pmap): result ids differ from the clients', case=nc)
+    for nm in order:
+      seq = [i for idxs in layouts[nm] for i in idxs]
+      for k in mets:
+        _cmp_result(k, got[nm.encode()][k], fold(singles[k], zeros[k], seq), 'ModelEvaluator on the pmap backend, client %s'
+                    % nm, nc)
+    evals += 1
+  return {'evals': evals, 'nontrivial': True, 'outcome': [fam, ndev]}
+
+
+SUBS = {'model_replace': model_replace, 'pmap_evaluator': pmap_evaluator, 'batch_level': batch_level, 'partition_level': partition_level, 'monoid': monoid, 'empty': empty}
 TIMEOUTS = {k: 900 for k in SUBS}
 
 
@@ -377,4 +464,6 @@ def plan(ctx):
         pl.append({'family': fam, 'seq': list(seq), 'pads': [(0, 'zeros'), (2, 'poison')], 'evaluator': seq[0] == 1})
   ctx.pmap('partition_level', pl, chunk=8)
   ctx.pmap('monoid', [{'family': f, 'metric': k} for f in ('cls', 'seq') for k in FAMILIES[f][0]()], chunk=2)
+  ctx.pmap('model_replace', [{'family': f} for f in ('cls', 'seq')], chunk=1)
+  ctx.pmap('pmap_evaluator', [{'family': f, 'devices': d} for f in ('cls', 'seq') for d in ((2, 3, 4) if th else (2, 3))], chunk=1)
   ctx.run('empty', [{'family': f, 'kind': k} for f in ('cls', 'seq') for k in ('zeros', 'poison')])
